@@ -389,12 +389,38 @@ def sample_measures(T, rp, rng, n):
             x, y = gen(), gen()
             measure(fn, "linearity", lambda f=f, x=x, y=y: linearity(f, x, y, a, b), a=a, b=b, x=x.tolist(), y=y.tolist())
             measure(fn, "homogeneity", lambda f=f, x=x: homogeneity(f, x, MAGS[t % len(MAGS)]), mag=MAGS[t % len(MAGS)], x=x.tolist())
+        # ---- the same value in another in-memory representation gives the same result and is left untouched
+        from harness.common import represent
+
+        REPR = ("fortran", "strided", "readonly", "int")
+
+        def representation(f, x, kind):
+            base = np.array(x, dtype=float)
+            if kind == "int":
+                base = np.round(base * 8.0)          # integral values, so that an integer-typed array holds the same value
+            ref = np.asarray(f(base.copy()), dtype=float)
+            arg = represent(base, kind)
+            got = np.asarray(f(arg), dtype=float)
+            if got.shape != ref.shape or not np.all(np.isfinite(got)):
+                return float("inf")
+            if not np.array_equal(np.asarray(arg, dtype=float), base):
+                return float("inf")                  # the caller's array was modified
+            scale = float(np.abs(ref).max())
+            return 0.0 if scale == 0.0 else float(np.abs(got - ref).max()) / scale
+
+        for k_, (fn, (gen, f)) in enumerate(lin.items()):
+            kind = REPR[(t + k_) % len(REPR)]
+            x = gen()
+            measure(fn, "representation", lambda f=f, x=x, kind=kind: representation(f, x, kind), repr=kind, x=np.asarray(x).tolist())
         R1, R2 = rot(rng.integers(2**31)), rot(rng.integers(2**31))
         M, M2 = _sym6(rng), _sym6(rng)
         C, C2 = rp.tensor_from_table(M), rp.tensor_from_table(M2)  # elastic tensors built from TLC's table
         fro = float(np.sqrt((C**2).sum()))
         measure("rotate", "linearity", lambda: linearity(lambda z: T.rotate(z, R1), C, C2, a, b), a=a, b=b, M=M.tolist(), M2=M2.tolist(), R=R1.tolist())
         measure("rotate", "homogeneity", lambda: homogeneity(lambda z: T.rotate(z, R1), C, MAGS[(t + 1) % len(MAGS)]), mag=MAGS[(t + 1) % len(MAGS)], M=M.tolist(), R=R1.tolist())
+        kr = REPR[t % 3]
+        measure("rotate", "representation", lambda: representation(lambda z: T.rotate(z, R1), C, kr), repr=kr, M=M.tolist(), R=R1.tolist())
+        measure("rotate", "representation", lambda: max(representation(lambda q: T.rotate(C, q), R1, k2) for k2 in ("fortran", "strided", "readonly")), repr="rotation-matrix", M=M.tolist(), R=R1.tolist())
         # ---- rotation clauses
         rc = memo(lambda: T.rotate(C, R1))
         info = dict(M=M.tolist(), R1=R1.tolist(), R2=R2.tolist())
@@ -471,6 +497,8 @@ def sample_measures(T, rp, rng, n):
             return max(abs(float(is_[k]) - mg ** (k + 1) * float(i1[k])) / (mg * amax) ** (k + 1) for k in range(3))
 
         measure("invariants_second_order", "homogeneity", invhom, A=A.tolist(), mag=mg)
+        ka = REPR[t % 3]
+        measure("invariants_second_order", "representation", lambda: representation(lambda z: np.array(T.invariants_second_order(z), dtype=float), A, ka), repr=ka, A=A.tolist())
         sv = np.linalg.svd(A, compute_uv=False)
         cond = float(sv[0] / sv[-1]) if sv[-1] > 0 else float("inf")
         if not cond <= 1e6:
@@ -495,6 +523,7 @@ def sample_measures(T, rp, rng, n):
                 return max(float(np.abs(rs - out()[0]).max()), float(np.abs(ss - mg * out()[1]).max()) / (mg * amax), float(np.abs(prod - mg * A).max()) / (mg * amax))
 
             measure(fn, "polar-homogeneity", polhom, k, mag=mg, **info)
+            measure(fn, "polar-representation", lambda left=left: representation(lambda z: np.stack([np.asarray(q, dtype=float) for q in T.polar_decompose(z, left)]), A, ka), k, repr=ka, **info)
     return ev, inp
 
 
